@@ -23,6 +23,7 @@ type flaky struct {
 	attempts []time.Duration
 	hdr      map[string][]string
 	body     []byte
+	latency  map[int]time.Duration // attempt index -> how long the wrapped getter takes to answer
 	maxCalls int // safety valve against a spinning loop: after this many attempts, sleep a little per call
 }
 
@@ -34,6 +35,9 @@ func (f *flaky) Get(url string) (map[string][]string, []byte, error) {
 	if f.maxCalls > 0 && n > f.maxCalls {
 		time.Sleep(time.Millisecond) // keep a busy loop from burning the whole machine; it is already counted
 	}
+	if d, ok := f.latency[n]; ok {
+		time.Sleep(d)
+	}
 	if f.failures < 0 || n < f.failures {
 		return nil, nil, errors.New("scripted failure")
 	}
@@ -43,6 +47,7 @@ func (f *flaky) Get(url string) (map[string][]string, []byte, error) {
 type retryCase struct {
 	timeout, cap time.Duration
 	failures     int // -1 = forever
+	slowSuccess  time.Duration // the successful attempt takes this long to answer (it may straddle the deadline)
 }
 
 type retryResult struct {
@@ -64,6 +69,9 @@ func runRetry(c retryCase) retryResult {
 	}
 	// the valve engages only once the busy-loop limit is exceeded anyway
 	f := &flaky{failures: c.failures, hdr: hdr, body: body, maxCalls: 10*int(c.timeout/effc) + 110}
+	if c.slowSuccess > 0 && c.failures >= 0 {
+		f.latency = map[int]time.Duration{c.failures: c.slowSuccess}
+	}
 	g := &trust.RetryHTTPSGetter{Timeout: c.timeout, MaxRetryDelay: c.cap, Getter: f}
 	// lateness calibration while the case runs
 	var worst int64
@@ -116,12 +124,18 @@ func c20(x *mon.Ctx) {
 					continue
 				}
 				seen[k] = true
-				cases = append(cases, retryCase{to, cp, k})
+				cases = append(cases, retryCase{to, cp, k, 0})
 			}
 		}
 	}
+	// a success that is delivered: immediately although the timeout is zero; or by an attempt that started before the deadline and answers after it
+	cases = append(cases,
+		retryCase{300 * time.Millisecond, 200 * time.Millisecond, 1, 250 * time.Millisecond},
+		retryCase{300 * time.Millisecond, 100 * time.Millisecond, 2, 250 * time.Millisecond},
+		retryCase{50 * time.Millisecond, 20 * time.Millisecond, 0, 120 * time.Millisecond},
+		retryCase{0, 20 * time.Millisecond, 0, 30 * time.Millisecond})
 	if !x.Quick() {
-		cases = append(cases, retryCase{2 * time.Minute, 30 * time.Second, -1}, retryCase{2 * time.Minute, 30 * time.Second, 3})
+		cases = append(cases, retryCase{2 * time.Minute, 30 * time.Second, -1, 0}, retryCase{2 * time.Minute, 30 * time.Second, 3, 0})
 	}
 	var mu sync.Mutex
 	results := make([]retryResult, len(cases))
@@ -140,6 +154,9 @@ func c20(x *mon.Ctx) {
 	for i, c := range cases {
 		r := results[i]
 		param := fmt.Sprintf("timeout=%v cap=%v failures=%d", c.timeout, c.cap, c.failures)
+		if c.slowSuccess > 0 {
+			param += fmt.Sprintf(" success-takes=%v", c.slowSuccess)
+		}
 		var probs []string
 		calm := r.late < slack/4
 		n := len(r.attempts)
@@ -191,6 +208,12 @@ func c20(x *mon.Ctx) {
 					x.Inconclusive(fmt.Sprintf("%s: gave up after %v but timers were late by %v", param, r.ret, r.late))
 					mu.Unlock()
 				}
+			}
+			// the first attempt is always made, and a success the wrapped getter delivered must be returned
+			if c.failures == 0 {
+				probs = append(probs, "the wrapped getter succeeds at its first attempt, yet an error was returned")
+			} else if c.failures > 0 && n == c.failures+1 {
+				probs = append(probs, "the wrapped getter delivered a success (attempt started before the deadline), yet an error was returned")
 			}
 			// giving up although the success was due well inside the timeout is allowed by the statement only if time ran out:
 			// the k-th failure comes at about k*cap; flag only a clear case
